@@ -102,8 +102,28 @@ def cells_source(c, name=None):
         lines.append('    """%s"""' % c["doc"])
     if tick:
         lines.append("    " + tick)
+    if c.get("form") == "deflines":
+        # one term per line, so that the line of every call is known:  a<i> = <term>
+        for i, t in enumerate(c["terms"]):
+            lines.append("    a%d = %s" % (i, render(t)))
+        lines.append("    return " + (" + ".join("a%d" % i for i in range(len(c["terms"]))) or "0"))
+        return "\n".join(lines) + "\n"
     lines.append("    return " + body)
     return "\n".join(lines) + "\n"
+
+
+def first_term_line(c):
+    """1-based line of term 0 in the deflines layout"""
+    return 2 + (1 if c.get("doc") else 0) + (1 if c.get("tick", True) else 0)
+
+
+def sum_expr(terms):
+    if not terms:
+        return ["lit", 0]
+    body = terms[0]
+    for t in terms[1:]:
+        body = ["bin", "+", body, t]
+    return body
 
 
 def walk(e):
